@@ -131,6 +131,7 @@ class Contract:
         self.replay = kw.pop("replay", None)
         self.assumes = kw.pop("assumes", [])
         self.opaque_calendar = kw.pop("opaque_calendar", False)
+        self.relational = kw.pop("relational", [])     # [(label, shared-params, requires-src, ensures-src)]
         if kw:
             raise TypeError(f"unknown contract keys {list(kw)}")
         self.requires = [(f"r{i}", c) if isinstance(c, str) else c for i, c in enumerate(self.requires)]
@@ -196,16 +197,18 @@ class HeapOps:
             st.heap[key] = z3.Store(a, obj, z3.Store(z3.Select(a, obj), sc, val.terms[k]))
 
     # lists ---------------------------------------------------------------
-    def list_len(self, st, r):
-        return z3.Select(self.arr(st, "$len", [Obj], z3.IntSort()), r)
+    def list_len(self, st, r, lty=None):
+        key = lty.k_len() if lty is not None else "$len@"
+        return z3.Select(self.arr(st, key, [Obj], z3.IntSort()), r)
 
-    def list_set_len(self, st, r, n):
-        st.heap["$len"] = z3.Store(self.arr(st, "$len", [Obj], z3.IntSort()), r, n)
+    def list_set_len(self, st, r, n, lty=None):
+        key = lty.k_len() if lty is not None else "$len@"
+        st.heap[key] = z3.Store(self.arr(st, key, [Obj], z3.IntSort()), r, n)
 
     def list_get(self, st, lty: T.List, r, i):
         terms = []
         for k, s in enumerate(lty.t.sorts()):
-            a = self.arr(st, f"$e:{lty.t.sig()}#{k}", [Obj, z3.IntSort()], s)
+            a = self.arr(st, lty.k_elem(k), [Obj, z3.IntSort()], s)
             terms.append(z3.Select(z3.Select(a, r), i))
         return V(lty.t, terms)
 
@@ -213,16 +216,16 @@ class HeapOps:
         val = T.coerce(val, lty.t)
         old = self.list_get(st, lty, r, i)
         for k, s in enumerate(lty.t.sorts()):
-            key = f"$e:{lty.t.sig()}#{k}"
+            key = lty.k_elem(k)
             a = self.arr(st, key, [Obj, z3.IntSort()], s)
             st.heap[key] = z3.Store(a, r, z3.Store(z3.Select(a, r), i, val.terms[k]))
         return old, val
 
     def list_sum(self, st, lty, r, k):
-        return z3.Select(self.arr(st, f"$sum:{lty.t.sig()}#{k}", [Obj], z3.RealSort()), r)
+        return z3.Select(self.arr(st, lty.k_sum(k), [Obj], z3.RealSort()), r)
 
     def list_set_sum(self, st, lty, r, k, v):
-        key = f"$sum:{lty.t.sig()}#{k}"
+        key = lty.k_sum(k)
         st.heap[key] = z3.Store(self.arr(st, key, [Obj], z3.RealSort()), r, v)
 
     # dicts ---------------------------------------------------------------
@@ -233,28 +236,28 @@ class HeapOps:
         return ks[0]
 
     def dict_has(self, st, dty, r, k):
-        a = self.arr(st, f"$dom:{dty.k.sig()}", [Obj, self._ks(dty)], z3.BoolSort())
+        a = self.arr(st, dty.k_dom(), [Obj, self._ks(dty)], z3.BoolSort())
         return z3.Select(z3.Select(a, r), k)
 
     def dict_get(self, st, dty, r, k):
         terms = []
         for j, s in enumerate(dty.v.sorts()):
-            a = self.arr(st, f"$dv:{dty.k.sig()}:{dty.v.sig()}#{j}", [Obj, self._ks(dty)], s)
+            a = self.arr(st, dty.k_val(j), [Obj, self._ks(dty)], s)
             terms.append(z3.Select(z3.Select(a, r), k))
         return V(dty.v, terms)
 
     def dict_put(self, st, dty, r, k, val):
         val = T.coerce(val, dty.v)
-        key = f"$dom:{dty.k.sig()}"
+        key = dty.k_dom()
         a = self.arr(st, key, [Obj, self._ks(dty)], z3.BoolSort())
         st.heap[key] = z3.Store(a, r, z3.Store(z3.Select(a, r), k, z3.BoolVal(True)))
         for j, s in enumerate(dty.v.sorts()):
-            key = f"$dv:{dty.k.sig()}:{dty.v.sig()}#{j}"
+            key = dty.k_val(j)
             a = self.arr(st, key, [Obj, self._ks(dty)], s)
             st.heap[key] = z3.Store(a, r, z3.Store(z3.Select(a, r), k, val.terms[j]))
 
     def dict_clear_new(self, st, dty, r):
-        key = f"$dom:{dty.k.sig()}"
+        key = dty.k_dom()
         a = self.arr(st, key, [Obj, self._ks(dty)], z3.BoolSort())
         st.heap[key] = z3.Store(a, r, z3.K(self._ks(dty), z3.BoolVal(False)))
 
@@ -458,7 +461,7 @@ class Exec:
         if isinstance(ty, T.Opt):
             return z3.And(z3.Not(v.terms[0]), self.truthy(st, T.opt_inner(v)))
         if isinstance(ty, T.List):
-            return self.h.list_len(st, v.t) > 0
+            return self.h.list_len(st, v.t, ty) > 0
         if isinstance(ty, T.Dict):
             raise Unsupported("truthiness of dict")
         if isinstance(ty, T.Ref):
@@ -699,7 +702,7 @@ class Exec:
             return z3.Or(*[self.equal(a, x) for x in T.tuple_items(b)])
         if isinstance(b.ty, T.List):
             # membership in a heap list: unconstrained (sound over-approximation) unless spec mode
-            n = self.h.list_len(st, b.t)
+            n = self.h.list_len(st, b.t, b.ty)
             j = z3.Int(T.fresh_name("j"))
             elem = self.h.list_get(st, b.ty, b.t, j)
             return z3.Exists([j], z3.And(0 <= j, j < n, self.equal(a, elem)))
@@ -714,9 +717,9 @@ class Exec:
             ety = vals[0].ty
             for v in vals[1:]:
                 ety = T.join_ty(ety, v.ty)
-        lty = T.List(ety)
+        lty = T.List(ety, region=self._pending_region or "")
         r = self.new_obj(st, "list")
-        self.h.list_set_len(st, r, z3.IntVal(0))
+        self.h.list_set_len(st, r, z3.IntVal(0), lty)
         lv = V(lty, [r])
         for k in getattr(lty, "ghost_sum", ()):
             self.h.list_set_sum(st, lty, r, k, z3.RealVal(0))
@@ -726,6 +729,7 @@ class Exec:
         return lv
 
     _pending_list_type = None
+    _pending_region = None
 
     def ev_Dict(self, node, st):
         if node.keys:
@@ -741,9 +745,9 @@ class Exec:
 
     def list_append(self, st, lv, v):
         lty = lv.ty
-        n = self.h.list_len(st, lv.t)
+        n = self.h.list_len(st, lv.t, lty)
         _, v2 = self.h.list_put(st, lty, lv.t, n, v)
-        self.h.list_set_len(st, lv.t, n + 1)
+        self.h.list_set_len(st, lv.t, n + 1, lty)
         for k in lty.ghost_sum:
             self.h.list_set_sum(st, lty, lv.t, k, self.h.list_sum(st, lty, lv.t, k) + to_real(v2.terms[k]))
 
@@ -918,7 +922,7 @@ class Exec:
         raise Unsupported(f"subscript of {ty}", node)
 
     def list_index(self, st, lv, i: V, node, write=False):
-        n = self.h.list_len(st, lv.t)
+        n = self.h.list_len(st, lv.t, lv.ty)
         ix = self.num(i)
         if not self.spec:
             if i.cint and self.c.cython:
@@ -1058,6 +1062,13 @@ class Exec:
         if s.value is None:
             return [Outcome("normal", st)]
         hint = self.c.locals.get(s.target.id) if isinstance(s.target, ast.Name) else None
+        if isinstance(s.target, ast.Attribute):
+            try:
+                b = self.ev(s.target.value, st)
+                if isinstance(b.ty, T.Ref):
+                    hint = REG.field_ty(s.target.attr, b.ty.cls)
+            except Unsupported:
+                hint = None
         v = self._ev_rhs(s.value, st, hint)
         self.assign(s.target, v, st, s)
         return self._flush_pending(st, [Outcome("normal", st)])
@@ -1066,11 +1077,19 @@ class Exec:
         # container literals take their element type from the declared local type
         if isinstance(value, ast.List) and isinstance(hint, T.List):
             self._pending_list_type = hint.t
+            self._pending_region = hint.region
             try:
                 v = self.ev(value, st)
             finally:
                 self._pending_list_type = None
-            return V(hint, v.terms)
+                self._pending_region = None
+            v = V(hint, v.terms)
+            if not value.elts:
+                for k in hint.ghost_sum:
+                    self.h.list_set_sum(st, hint, v.t, k, z3.RealVal(0))
+            elif hint.ghost_sum:
+                raise Unsupported("non-empty list literal for a list with ghost sum", value)
+            return v
         if isinstance(value, ast.Dict) and isinstance(hint, T.Dict):
             self._pending_dict_type = hint
             try:
@@ -1086,9 +1105,9 @@ class Exec:
             lty = hint if isinstance(hint, T.List) else T.List(ety)
             init = T.coerce(init, ety)
             r = self.new_obj(st, "list")
-            self.h.list_set_len(st, r, z3.If(n.t < 0, 0, n.t))
+            self.h.list_set_len(st, r, z3.If(n.t < 0, 0, n.t), lty)
             for k, srt in enumerate(ety.sorts()):
-                key = f"$e:{ety.sig()}#{k}"
+                key = lty.k_elem(k)
                 a = self.h.arr(st, key, [Obj, z3.IntSort()], srt)
                 st.heap[key] = z3.Store(a, r, z3.K(z3.IntSort(), init.terms[k]))
             return V(lty, [r])
@@ -1105,6 +1124,15 @@ class Exec:
                     b = self.ev(tg.value, st)
                     if isinstance(b.ty, T.Ref):
                         hint = REG.field_ty(tg.attr, b.ty.cls)
+                except Unsupported:
+                    hint = None
+            elif isinstance(tg, ast.Subscript) and isinstance(s.value, (ast.List, ast.Dict)):
+                try:
+                    b = T.opt_inner(self.ev(tg.value, st.fork()))
+                    if isinstance(b.ty, T.Dict):
+                        hint = b.ty.v
+                    elif isinstance(b.ty, T.List):
+                        hint = b.ty.t
                 except Unsupported:
                     hint = None
         v = self._ev_rhs(s.value, st, hint)
